@@ -12,7 +12,7 @@
    [0001-01-01, 10000-01-01), the tombstone count fits int32 and the value is a
    64-bit pattern.  [node_ok] adds id / type / parent strings, a 32-bit hash and
    [point_ok] for both point lists. *)
-From Verif Require Import Base.Bytes Wire.Model Wire.Proofs.
+From Verif Require Import Base.Bytes Wire.Model Wire.Proofs Wire.F32.
 Local Open Scope N_scope.
 
 (* the crux of the wire format: a 64-bit value survives the varint encoding,
@@ -68,6 +68,14 @@ Theorem C12_serial_roundtrip_partial :
   exists bs, serial_encode ps = Ok bs /\ pb_decode_serial_points bs = Ok (map serial_image ps).
 Proof. exact serial_roundtrip_partial. Qed.
 Print Assumptions C12_serial_roundtrip_partial.
+
+(* ... and that hypothesis holds of every float64 pattern (Wire/F32.v: f64_to_f32_bound), so the serial
+   round trip is unconditional for points whose values are 64-bit patterns *)
+Theorem C12_serial_roundtrip :
+  forall ps, forallb serial_point_ok ps = true -> Forall (fun p => p_value p < 2 ^ 64) ps ->
+  exists bs, serial_encode ps = Ok bs /\ pb_decode_serial_points bs = Ok (map serial_image ps).
+Proof. exact serial_roundtrip. Qed.
+Print Assumptions C12_serial_roundtrip.
 
 (* for every byte string every decoder returns a value or an error, and for every
    subject string and payload so does every subject parser: Panic, which the
